@@ -83,6 +83,8 @@ fn gen_batch(rng: &mut Rng, b: u64, scale_small: bool) -> String {
         _ => rng.range(0, 4 * unit + 3),
     }
     .min(maxlen);
+    // cutting into datagrams is quadratic in the model's monitor: at most ~400 datagrams per batch
+    let len = len.min(unit * 400 + 1);
     let bytes = if len <= 200 { Bytes::Hex(rng.bytes(len as usize)) } else { Bytes::random(rng, len as usize) };
     format!("A/{src}/{ecn}/{}/{}", ss.map_or("-".into(), |s| s.to_string()), bytes.raw())
 }
